@@ -108,18 +108,23 @@ Definition vbin (o : binop) (a b : val) : option val :=
   end.
 
 Definition vun (o : unop) (a : val) : option val :=
-  match o, a with
-  | Abs, VInt z => Some (VInt (Z.abs z))
-  | Abs, VFlt f => Some (VFlt (fabs f))
-  | Not, VInt z => Some (VInt (bz (z =? 0)))
-  | Not, VFlt _ => None
-  | Neg, VInt z => Some (VInt (- z))
-  | Neg, VFlt f => Some (VFlt (fneg f))
-  | IsNan, VFlt NaN => Some (VInt 1)
-  | IsNan, _ => Some (VInt 0)
-  | IsFinite, VFlt (Fin _) => Some (VInt 1)
-  | IsFinite, VFlt _ => Some (VInt 0)
-  | IsFinite, VInt _ => Some (VInt 1)
+  match a with
+  | VInt z =>
+      match o with
+      | Abs => Some (VInt (Z.abs z))
+      | Not => Some (VInt (bz (z =? 0)))
+      | Neg => Some (VInt (- z))
+      | IsNan => Some (VInt 0)
+      | IsFinite => Some (VInt 1)
+      end
+  | VFlt f =>
+      match o with
+      | Abs => Some (VFlt (fabs f))
+      | Not => None
+      | Neg => Some (VFlt (fneg f))
+      | IsNan => Some (VInt (match f with NaN => 1 | _ => 0 end))
+      | IsFinite => Some (VInt (match f with Fin _ => 1 | _ => 0 end))
+      end
   end.
 
 (* ---------------------------------------------------------------- arrays *)
